@@ -37,10 +37,66 @@ Fixpoint drive (fuel : nat) (g : glob) (nx : next A) : glob * option action :=
     end
   end.
 
-Theorem atomic_call_is_call g m a :
-  snd (drive 4 g (start_call m a)) = Some (snd (call (g_state g) m a)) /\
-  g_state (fst (drive 4 g (start_call m a))) = fst (call (g_state g) m a).
+Lemma drive_S f g pd : drive (S f) g (NPend pd) = let '(g', nx', _) := exec g pd in drive f g' nx'.
+Proof. reflexivity. Qed.
+
+Lemma drive_done f g act : drive f g (NDone act) = (g, Some act).
+Proof. destruct f; reflexivity. Qed.
+
+(* the further slots of a composite value are empty as long as its first one is full *)
+Definition leaves_consistent (g : glob) : Prop :=
+  forall m i j l, leaf_taken (g_leaf g) (m, i, j, l) = true -> taken (g_state g) m i j = true.
+
+Lemma leaf_eqb_other m i j l l' : l <> l' -> leaf_eqb (m, i, j, l') (m, i, j, l) = false.
+Proof. intros H. cbn. apply andb_false_iff. right. apply Nat.eqb_neq. congruence. Qed.
+
+Lemma leaf_eqb_true x y : leaf_eqb x y = true -> x = y.
 Proof.
+  destruct x as [[[m i] j] l], y as [[[m' i'] j'] l']. cbn. intros H.
+  apply andb_true_iff in H as [H H4]. apply andb_true_iff in H as [H H3]. apply andb_true_iff in H as [H1 H2].
+  apply N.eqb_eq in H1. apply Nat.eqb_eq in H2. apply Nat.eqb_eq in H3. apply Nat.eqb_eq in H4. now subst.
+Qed.
+
+(* the further slots, taken back to back from the l-th on, all of them still full: the value is returned *)
+Lemma drive_leaves m a i p j v : forall n g l extra,
+  (forall l', (l <= l')%nat -> leaf_taken (g_leaf g) (m, i, j, l') = false) ->
+  (l + n = mi_more_leaves (info m))%nat ->
+  snd (drive (S n + extra) g (NPend (PLockLeaf m a i p j v l))) = Some (ActReturn (RVTag v)) /\
+  g_state (fst (drive (S n + extra) g (NPend (PLockLeaf m a i p j v l)))) = g_state g.
+Proof.
+  induction n as [|n IH]; intros g l extra Hfree Hl; cbn [drive Nat.add Conc.exec]; rewrite (Hfree l (le_n l)).
+  - replace (Nat.ltb l (mi_more_leaves (info m))) with false by (symmetry; apply Nat.ltb_ge; lia).
+    destruct extra; cbn; split; reflexivity.
+  - replace (Nat.ltb l (mi_more_leaves (info m))) with true by (symmetry; apply Nat.ltb_lt; lia).
+    specialize (IH {| g_state := g_state g; g_order := g_order g; g_log := g_log g; g_deliv := g_deliv g;
+                      g_leaf := (m, i, j, l) :: g_leaf g |} (S l) extra).
+    cbn [Nat.add] in IH. apply IH; [|lia].
+    intros l' Hl'. pose proof (Hfree l' ltac:(lia)) as F. unfold leaf_taken in F |- *. cbn [g_leaf existsb].
+    rewrite F, leaf_eqb_other by lia. reflexivity.
+Qed.
+
+Theorem atomic_call_is_call g m a : leaves_consistent g ->
+  snd (drive (4 + mi_more_leaves (info m)) g (start_call m a)) = Some (snd (call (g_state g) m a)) /\
+  g_state (fst (drive (4 + mi_more_leaves (info m)) g (start_call m a))) = fst (call (g_state g) m a).
+Proof.
+  intros Hcons.
+  assert (Hslot : forall g' a0 i p j v extra, g_leaf g' = g_leaf g -> taken (g_state g') = taken (g_state g) ->
+            taken (g_state g) m i j = false ->
+            snd (drive (2 + extra + mi_more_leaves (info m)) g' (NPend (PLockSlot m a0 i p j v))) = Some (ActReturn (RVTag v)) /\
+            g_state (fst (drive (2 + extra + mi_more_leaves (info m)) g' (NPend (PLockSlot m a0 i p j v)))) =
+              set_taken (g_state g') (take (taken (g_state g')) m i j)).
+  { intros g' a0 i p j v extra Hgl Htk Ht. cbn [drive Nat.add Conc.exec]. rewrite Htk, Ht.
+    destruct (mi_more_leaves (info m)) as [|n] eqn:Hm.
+    - cbn. split; reflexivity.
+    - rewrite <- Htk.
+      match goal with |- context [exec ?gg (PLockLeaf m a0 i p j v 1)] =>
+        assert (D : snd (drive (S n + S extra) gg (NPend (PLockLeaf m a0 i p j v 1))) = Some (ActReturn (RVTag v)) /\
+                    g_state (fst (drive (S n + S extra) gg (NPend (PLockLeaf m a0 i p j v 1)))) = g_state gg);
+        [apply (drive_leaves m a0 i p j v n gg 1%nat (S extra)); [|lia]|] end.
+      2:{ replace (S n + S extra)%nat with (S (extra + S n))%nat in D by lia. cbn [drive g_state] in D. exact D. }
+      intros l' _. cbn [g_leaf]. rewrite Hgl.
+      destruct (leaf_taken (g_leaf g) (m, i, j, l')) eqn:E; [|reflexivity]. apply Hcons in E. congruence. }
+  change (4 + mi_more_leaves (info m))%nat with (S (S (S (S (mi_more_leaves (info m)))))).
   unfold Conc.start_call, Eval.call, Eval.eval, Eval.eval_raw.
   destruct (lookup m (c_table cfg)) as [mk|].
   2:{ destruct (mi_has_default (info m)) eqn:Hd; [cbn; rewrite Hd; split; reflexivity|].
@@ -52,25 +108,33 @@ Proof.
   - (* unordered *)
     destruct (scan A accepts a (m_pats mk) 0) as [[[i p] [b|]]|].
     + (* selected: fetch_add on the counter, then respond *)
-      cbn [drive Conc.exec]. unfold Conc.after_cnt, Eval.respond.
+      rewrite drive_S. cbn [Conc.exec]. unfold Conc.after_cnt, Eval.respond.
       destruct (find_responder_idx (map fst (p_resps p)) (cnt (g_state g) m i)) as [j|]; [|cbn; split; reflexivity].
       destruct (nth_opt (p_resps p) j) as [[k r]|]; [|cbn; split; reflexivity].
-      destruct r as [[|] v| |f|msg| |]; cbn; try (split; reflexivity).
-      * destruct (taken (g_state g) m i j); cbn; split; reflexivity.
+      destruct r as [[|] v| |f|msg| |]; [|cbn; try (split; reflexivity)..].
+      * destruct (taken (g_state g) m i j) eqn:Ht.
+        -- cbn. rewrite Ht. cbn. split; reflexivity.
+        -- match goal with |- context [drive _ ?g1 (NPend (PLockSlot m a i p j v))] =>
+             destruct (Hslot g1 a i p j v 1%nat eq_refl eq_refl Ht) as [H1 H2] end.
+           cbn [Nat.add] in H1, H2. rewrite H1, H2. cbn. rewrite Ht. cbn. split; reflexivity.
       * destruct (mi_has_unmock_arm (info m)); cbn; split; reflexivity.
       * destruct (mi_has_default (info m)); cbn; split; reflexivity.
     + cbn. split; reflexivity.
     + destruct (c_fallback cfg); cbn; [split; reflexivity|].
       destruct (mi_has_unmock_arm (info m)); cbn; split; reflexivity.
   - (* ordered *)
-    cbn [drive Conc.exec]. unfold Conc.after_ord.
+    rewrite drive_S. cbn [Conc.exec]. unfold Conc.after_ord.
     destruct (find_range (next_ord (g_state g)) (m_pats mk) 0) as [[i p]|]; [|cbn; split; reflexivity].
     destruct (match_inputs A accepts p a) as [[|]|]; try (cbn; split; reflexivity).
-    cbn [drive Conc.exec]. unfold Conc.after_cnt, Eval.respond. cbn [g_state cnt set_next].
+    rewrite drive_S. cbn [Conc.exec]. unfold Conc.after_cnt, Eval.respond. cbn [g_state cnt set_next].
     destruct (find_responder_idx (map fst (p_resps p)) (cnt (g_state g) m i)) as [j|]; [|cbn; split; reflexivity].
     destruct (nth_opt (p_resps p) j) as [[k r]|]; [|cbn; split; reflexivity].
-    destruct r as [[|] v| |f|msg| |]; cbn; try (split; reflexivity).
-    * destruct (taken (g_state g) m i j); cbn; split; reflexivity.
+    destruct r as [[|] v| |f|msg| |]; [|cbn; try (split; reflexivity)..].
+    * destruct (taken (g_state g) m i j) eqn:Ht.
+      -- cbn. rewrite Ht. cbn. rewrite !drive_done. split; reflexivity.
+      -- match goal with |- context [drive _ ?g1 (NPend (PLockSlot m a i p j v))] =>
+           destruct (Hslot g1 a i p j v 0%nat eq_refl eq_refl Ht) as [H1 H2] end.
+         cbn [Nat.add] in H1, H2. rewrite H1, H2. cbn. rewrite Ht. cbn. split; reflexivity.
     * destruct (mi_has_unmock_arm (info m)); cbn; split; reflexivity.
     * destruct (mi_has_default (info m)); cbn; split; reflexivity.
 Qed.
@@ -97,6 +161,7 @@ Definition loc_eqb (a b : loc) : bool :=
   | LOrd, LOrd | LErrs, LErrs => true
   | LCnt m i, LCnt m' i' => (N.eqb m m' && Nat.eqb i i')%bool
   | LSlot m i j, LSlot m' i' j' => (N.eqb m m' && Nat.eqb i i' && Nat.eqb j j')%bool
+  | LLeaf m i j l, LLeaf m' i' j' l' => (N.eqb m m' && Nat.eqb i i' && Nat.eqb j j' && Nat.eqb l l')%bool
   | _, _ => false
   end.
 
@@ -131,20 +196,22 @@ Lemma exec_positions g pd :
   forall l, match l with LOrd | LCnt _ _ =>
       obtained l (g_log (fst (fst (exec g pd)))) = nlist (value_at (g_state (fst (fst (exec g pd)))) l) | _ => True end.
 Proof.
-  intros H l. destruct pd as [m a mk|m a i p counted|m a i p j v|e]; cbn [Conc.exec fst snd g_log g_state].
-  - destruct l as [|m' i'| |]; try exact I; rewrite obtained_app; cbn [fst snd loc_eqb value_at next_ord set_next cnt].
+  intros H l. destruct pd as [m a mk|m a i p counted|m a i p j v|m a i p j v lf|e]; cbn [Conc.exec fst snd g_log g_state].
+  - destruct l as [|m' i'| | |]; try exact I; rewrite obtained_app; cbn [fst snd loc_eqb value_at next_ord set_next cnt].
     + rewrite (H LOrd). cbn [value_at]. now rewrite nlist_succ.
     + rewrite app_nil_r. exact (H (LCnt m' i')).
-  - destruct l as [|m' i'| |]; try exact I; rewrite obtained_app; cbn [fst snd loc_eqb value_at next_ord set_cnt cnt].
+  - destruct l as [|m' i'| | |]; try exact I; rewrite obtained_app; cbn [fst snd loc_eqb value_at next_ord set_cnt cnt].
     + rewrite app_nil_r. exact (H LOrd).
     + rewrite (H (LCnt m' i')). cbn [value_at]. unfold bump.
       rewrite (N.eqb_sym m' m), (Nat.eqb_sym i' i).
       destruct (N.eqb m m' && Nat.eqb i i')%bool eqn:E.
       * apply andb_true_iff in E as [E1 E2]. apply N.eqb_eq in E1. apply Nat.eqb_eq in E2. subst. now rewrite nlist_succ.
       * now rewrite app_nil_r.
-  - destruct (taken (g_state g) m i j); cbn [fst snd g_log g_state]; destruct l as [|m' i'| |]; try exact I;
-      [exact (H LOrd)|exact (H (LCnt m' i'))|exact (H LOrd)|exact (H (LCnt m' i'))].
-  - destruct l as [|m' i'| |]; try exact I; [exact (H LOrd)|exact (H (LCnt m' i'))].
+  - destruct (taken (g_state g) m i j); [|destruct (mi_more_leaves (info m))]; cbn [fst snd g_log g_state];
+      destruct l as [|m' i'| | |]; try exact I; first [exact (H LOrd)|exact (H (LCnt m' i'))].
+  - destruct (leaf_taken (g_leaf g) (m, i, j, lf)); [|destruct (Nat.ltb lf (mi_more_leaves (info m)))]; cbn [fst snd g_log g_state];
+      destruct l as [|m' i'| | |]; try exact I; first [exact (H LOrd)|exact (H (LCnt m' i'))].
+  - destruct l as [|m' i'| | |]; try exact I; [exact (H LOrd)|exact (H (LCnt m' i'))].
 Qed.
 
 Theorem positions_hold sched ths0 : positions_inv (run_sched sched (init_glob, ths0)).
@@ -155,50 +222,6 @@ Proof.
     pose proof (exec_positions g pd H l) as G.
     destruct (exec g pd) as [[g' nx] lc]. cbn [fst snd] in *. exact G.
   - intros l. destruct l; try exact I; reflexivity.
-Qed.
-
-(* ---------- (T4) a single-use value is handed out at most once ---------- *)
-Definition deliv_inv (st : glob * list thread) : Prop :=
-  NoDup (g_deliv (fst st)) /\
-  forall m i j, In (m, i, j) (g_deliv (fst st)) <-> taken (g_state (fst st)) m i j = true.
-
-Lemma NoDup_snoc {X} (l : list X) x : NoDup l -> ~ In x l -> NoDup (l ++ [x]).
-Proof.
-  induction 1 as [|y l Hy Hnd IH]; intros Hx; cbn.
-  - constructor; [intros []|constructor].
-  - constructor.
-    + intros Hin. apply in_app_or in Hin as [Hin|[<-|[]]]; [contradiction|]. apply Hx. now left.
-    + apply IH. intros Hin. apply Hx. now right.
-Qed.
-
-Lemma exec_deliv g pd :
-  (NoDup (g_deliv g) /\ forall m i j, In (m, i, j) (g_deliv g) <-> taken (g_state g) m i j = true) ->
-  NoDup (g_deliv (fst (fst (exec g pd)))) /\
-  forall m i j, In (m, i, j) (g_deliv (fst (fst (exec g pd)))) <-> taken (g_state (fst (fst (exec g pd)))) m i j = true.
-Proof.
-  intros [Hnd Hiff]. destruct pd as [m a mk|m a i p counted|m a i p j v|e]; cbn [Conc.exec fst snd g_deliv g_state];
-    try (split; assumption).
-  destruct (taken (g_state g) m i j) eqn:Ht; cbn [fst snd g_deliv g_state]; [split; assumption|]. split.
-  - apply NoDup_snoc; [assumption|]. intros Hin. apply Hiff in Hin. congruence.
-  - intros m' i' j'. cbn [taken set_taken]. rewrite in_app_iff. split.
-    + intros [Hin|[Heq|[]]].
-      * unfold take. apply Hiff in Hin. rewrite Hin. now destruct (N.eqb m m' && Nat.eqb i i' && Nat.eqb j j')%bool.
-      * injection Heq as <- <- <-. apply take_same.
-    + intros Hk. unfold take in Hk.
-      destruct (N.eqb m m' && Nat.eqb i i' && Nat.eqb j j')%bool eqn:E.
-      * apply andb_true_iff in E as [E E3]. apply andb_true_iff in E as [E1 E2].
-        apply N.eqb_eq in E1. apply Nat.eqb_eq in E2. apply Nat.eqb_eq in E3. subst. right. now left.
-      * left. now apply Hiff.
-Qed.
-
-Theorem single_use_once sched ths0 : deliv_inv (run_sched sched (init_glob, ths0)).
-Proof.
-  apply sched_induction.
-  - intros g ths tid th H _. unfold deliv_inv in *. cbn [fst] in *.
-    unfold Conc.tstep. destruct (t_pend th) as [pd|]; [|exact H].
-    pose proof (exec_deliv g pd H) as G.
-    destruct (exec g pd) as [[g' nx] lc]. cbn [fst snd] in *. exact G.
-  - split; [constructor|]. intros m i j. cbn. split; [intros []|discriminate].
 Qed.
 
 (* ---------- (T3) the error list holds exactly the mock-induced panics of all threads ---------- *)
@@ -249,13 +272,18 @@ Lemma tstep_errors g th :
               panics_out (snd (fst (tstep g th))) = (panics_out th ++ new)%list.
 Proof.
   unfold Conc.tstep. destruct (t_pend th) as [pd|] eqn:Hp; [|exists []; cbn; now rewrite !app_nil_r].
-  destruct pd as [m a mk|m a i p counted|m a i p j v|e]; cbn [Conc.exec fst snd g_state].
+  destruct pd as [m a mk|m a i p counted|m a i p j v|m a i p j v lf|e]; cbn [Conc.exec fst snd g_state].
   - exists []. rewrite !app_nil_r. split; [reflexivity|].
     destruct (after_ord m a mk (next_ord (g_state g))) as [act|pd'] eqn:Ha; [now apply after_ord_pend in Ha|reflexivity].
   - exists []. rewrite !app_nil_r. split; [reflexivity|].
     destruct (after_cnt m a i p (cnt (g_state g) m i)) as [act|pd'] eqn:Ha; [|reflexivity].
     rewrite advance_panics, flat_map_snoc, (after_cnt_done _ _ _ _ _ _ Ha). now rewrite app_nil_r.
-  - exists []. rewrite !app_nil_r. destruct (taken (g_state g) m i j); cbn [fst snd g_state]; split; try reflexivity.
+  - exists []. rewrite !app_nil_r. destruct (taken (g_state g) m i j); [|destruct (mi_more_leaves (info m))];
+      cbn [fst snd g_state]; split; try reflexivity.
+    rewrite advance_panics, flat_map_snoc. cbn. now rewrite app_nil_r.
+  - exists []. rewrite !app_nil_r.
+    destruct (leaf_taken (g_leaf g) (m, i, j, lf)); [|destruct (Nat.ltb lf (mi_more_leaves (info m)))];
+      cbn [fst snd g_state]; split; try reflexivity.
     rewrite advance_panics, flat_map_snoc. cbn. now rewrite app_nil_r.
   - exists [e]. split; [reflexivity|]. rewrite advance_panics, flat_map_snoc. reflexivity.
 Qed.
@@ -409,7 +437,7 @@ Proof.
   assert (Hold : forall m i, owed m i th = match pd with
                    | PFetchCnt m' _ i' _ true => if (N.eqb m' m && Nat.eqb i' i)%bool then 1 else 0 | _ => 0 end).
   { intros m i. unfold owed. now rewrite Hp. }
-  destruct pd as [m a mk|m a i p counted|m a i p j v|e]; cbn [Conc.exec fst snd]; unfold seq_inv.
+  destruct pd as [m a mk|m a i p counted|m a i p j v|m a i p j v lf|e]; cbn [Conc.exec fst snd]; unfold seq_inv.
   - (* ordered index *)
     destruct Hwt as [Hl Hmode].
     set (k := next_ord (g_state g)) in *.
@@ -432,7 +460,7 @@ Proof.
     + cbn [next_ord set_next]. now rewrite Hev_n.
     + intros m' i'. rewrite Hev_c, Hsel. cbn [cnt set_next].
       specialize (Hcnt m' i'). unfold owed_all in *.
-      destruct pd' as [m2 a2 mk2|m2 a2 i2 p2 [|]|m2 a2 i2 p2 j2 v2|e2];
+      destruct pd' as [m2 a2 mk2|m2 a2 i2 p2 [|]|m2 a2 i2 p2 j2 v2|m2 a2 i2 p2 j2 v2 l2|e2];
         match goal with |- context [updl ths tid ?t] => pose proof (nsum_updl (owed m' i') ths tid th t Hn) as Hs end; rewrite (Hold m' i') in Hs;
         unfold owed in Hs at 3; cbn [t_pend] in Hs; try lia.
       rewrite bump_val. unfold Conc.after_ord in Ha.
@@ -479,8 +507,27 @@ Proof.
       rewrite (Hold m' i') in Hs. unfold owed in Hs at 3. cbn [t_pend] in Hs.
       unfold owed_all. specialize (Hcnt m' i'). unfold owed_all in Hcnt. lia.
     + destruct (advance_wf (t_calls th) (t_out th ++ [ActReturn (RVTag v)])) as [Hw' Ho'].
-      split; [apply Forall_updl; assumption|]. split; [assumption|]. intros m' i'. cbn [cnt set_taken].
-      match goal with |- context [updl ths tid ?t] => pose proof (nsum_updl (owed m' i') ths tid th t Hn) as Hs end. rewrite (Hold m' i'), (Ho' m' i') in Hs.
+      destruct (mi_more_leaves (info m)); cbn [fst snd g_state g_order].
+      * split; [apply Forall_updl; assumption|]. split; [assumption|]. intros m' i'. cbn [cnt set_taken].
+        match goal with |- context [updl ths tid ?t] => pose proof (nsum_updl (owed m' i') ths tid th t Hn) as Hs end. rewrite (Hold m' i'), (Ho' m' i') in Hs.
+        unfold owed_all. specialize (Hcnt m' i'). unfold owed_all in Hcnt. lia.
+      * split; [apply Forall_updl; [assumption|exact I]|]. split; [assumption|]. intros m' i'. cbn [cnt set_taken].
+        match goal with |- context [updl ths tid ?t] => pose proof (nsum_updl (owed m' i') ths tid th t Hn) as Hs end.
+        rewrite (Hold m' i') in Hs. unfold owed in Hs at 3. cbn [t_pend] in Hs.
+        unfold owed_all. specialize (Hcnt m' i'). unfold owed_all in Hcnt. lia.
+  - (* a further slot of a composite single-use value *)
+    destruct (advance_wf (t_calls th) (t_out th ++ [ActReturn (RVTag v)])) as [Hw' Ho'].
+    destruct (leaf_taken (g_leaf g) (m, i, j, lf)); [|destruct (Nat.ltb lf (mi_more_leaves (info m)))]; cbn [fst snd g_state g_order].
+    3:{ split; [apply Forall_updl; assumption|]. split; [assumption|]. intros m' i'.
+        match goal with |- context [updl ths tid ?t] => pose proof (nsum_updl (owed m' i') ths tid th t Hn) as Hs end. rewrite (Hold m' i'), (Ho' m' i') in Hs.
+        unfold owed_all. specialize (Hcnt m' i'). unfold owed_all in Hcnt. lia. }
+    + split; [apply Forall_updl; [assumption|exact I]|]. split; [assumption|]. intros m' i'.
+      match goal with |- context [updl ths tid ?t] => pose proof (nsum_updl (owed m' i') ths tid th t Hn) as Hs end.
+      rewrite (Hold m' i') in Hs. unfold owed in Hs at 3. cbn [t_pend] in Hs.
+      unfold owed_all. specialize (Hcnt m' i'). unfold owed_all in Hcnt. lia.
+    + split; [apply Forall_updl; [assumption|exact I]|]. split; [assumption|]. intros m' i'.
+      match goal with |- context [updl ths tid ?t] => pose proof (nsum_updl (owed m' i') ths tid th t Hn) as Hs end.
+      rewrite (Hold m' i') in Hs. unfold owed in Hs at 3. cbn [t_pend] in Hs.
       unfold owed_all. specialize (Hcnt m' i'). unfold owed_all in Hcnt. lia.
   - (* error list *)
     destruct (advance_wf (t_calls th) (t_out th ++ [ActPanic e])) as [Hw' Ho'].
@@ -517,6 +564,334 @@ Proof.
   cbn zeta. pose proof (sequential_equivalence sched callss) as H.
   destruct (run_sched sched _) as [g ths]. cbn [fst snd]. destruct H as (_ & Hn & Hc).
   intros Hd. split; [exact Hn|]. intros m i. rewrite <- (Hc m i), (done_owes_nothing ths m i Hd). lia.
+Qed.
+
+(* ---------- (T4) a single-use value has exactly one owner: the request that emptied its first slot ---------- *)
+Definition key := (N * nat * nat)%type.
+Definition key_eqb (x y : key) : bool :=
+  let '(m, i, j) := x in let '(m', i', j') := y in (N.eqb m m' && Nat.eqb i i' && Nat.eqb j j')%bool.
+
+Lemma key_eqb_true x y : key_eqb x y = true -> x = y.
+Proof.
+  destruct x as [[m i] j], y as [[m' i'] j']. cbn. intros H.
+  apply andb_true_iff in H as [H H3]. apply andb_true_iff in H as [H1 H2].
+  apply N.eqb_eq in H1. apply Nat.eqb_eq in H2. apply Nat.eqb_eq in H3. now subst.
+Qed.
+Lemma key_eqb_refl x : key_eqb x x = true.
+Proof. destruct x as [[m i] j]. cbn. now rewrite N.eqb_refl, !Nat.eqb_refl. Qed.
+Lemma key_eqb_sym x y : key_eqb x y = key_eqb y x.
+Proof. destruct x as [[m i] j], y as [[m' i'] j']. cbn. now rewrite (N.eqb_sym m), (Nat.eqb_sym i), (Nat.eqb_sym j). Qed.
+
+Definition kcount (k : key) (l : list key) : N := nsum (map (fun x => if key_eqb x k then 1 else 0) l).
+
+Lemma kcount_snoc k l x : kcount k (l ++ [x]) = kcount k l + (if key_eqb x k then 1 else 0).
+Proof. unfold kcount. induction l as [|h t IH]; cbn [app map nsum]; [lia|]. rewrite IH. lia. Qed.
+
+Lemma kcount_in k l : In k l -> 1 <= kcount k l.
+Proof.
+  unfold kcount. induction l as [|h t IH]; intros H; [destruct H|]. cbn [map nsum]. destruct H as [->|H].
+  - rewrite key_eqb_refl. lia.
+  - specialize (IH H). lia.
+Qed.
+
+Lemma kcount_pos k l : 1 <= kcount k l -> In k l.
+Proof.
+  unfold kcount. induction l as [|h t IH]; cbn [map nsum]; intros H; [lia|].
+  destruct (key_eqb h k) eqn:E; [left; now apply key_eqb_true|right; apply IH; lia].
+Qed.
+
+Lemma kcount_nodup l : (forall k, kcount k l <= 1) -> NoDup l.
+Proof.
+  induction l as [|h t IH]; intros H; constructor.
+  - intros Hin. apply kcount_in in Hin. specialize (H h). unfold kcount in H, Hin. cbn [map nsum] in H.
+    rewrite key_eqb_refl in H. lia.
+  - apply IH. intros k. specialize (H k). unfold kcount in *. cbn [map nsum] in H. destruct (key_eqb h k); lia.
+Qed.
+
+(* the thread is between two slots of the composite value k: it has emptied the first one *)
+Definition holds (k : key) (th : thread) : N :=
+  match t_pend th with Some (PLockLeaf m _ i _ j _ _) => if key_eqb (m, i, j) k then 1 else 0 | _ => 0 end.
+Definition holders (k : key) (ths : list thread) : N := nsum (map (holds k) ths).
+
+Definition no_leaf (th : thread) : Prop :=
+  match t_pend th with Some (PLockLeaf _ _ _ _ _ _ _) => False | _ => True end.
+
+(* ... and the slots it still has to take are full *)
+Definition leaf_ok (g : glob) (th : thread) : Prop :=
+  match t_pend th with
+  | Some (PLockLeaf m _ i _ j _ l) =>
+      (1 <= l <= mi_more_leaves (info m))%nat /\ forall l', (l <= l')%nat -> leaf_taken (g_leaf g) (m, i, j, l') = false
+  | _ => True
+  end.
+
+Definition b2n (b : bool) : N := if b then 1 else 0.
+
+Definition owner_inv (st : glob * list thread) : Prop :=
+  let '(g, ths) := st in
+  (forall m i j, kcount (m, i, j) (g_deliv g) + holders (m, i, j) ths = b2n (taken (g_state g) m i j)) /\
+  (forall tid th, nth_opt ths tid = Some th -> leaf_ok g th) /\
+  leaves_consistent g.
+
+Lemma no_leaf_holds k th : no_leaf th -> holds k th = 0.
+Proof. unfold no_leaf, holds. destruct (t_pend th) as [[| | | |]|]; intros H; try reflexivity. destruct H. Qed.
+Lemma no_leaf_ok g th : no_leaf th -> leaf_ok g th.
+Proof. unfold no_leaf, leaf_ok. destruct (t_pend th) as [[| | | |]|]; intros H; try exact I. destruct H. Qed.
+
+Lemma start_call_no_leaf m a pd : start_call m a = NPend pd -> match pd with PLockLeaf _ _ _ _ _ _ _ => False | _ => True end.
+Proof.
+  unfold Conc.start_call, Conc.finish_next. destruct (lookup m (c_table cfg)) as [mk|].
+  - destruct (m_mode mk); [|intros [= <-]; exact I].
+    destruct (scan A accepts a (m_pats mk) 0) as [[[i p] [b|]]|]; try (intros [= <-]; exact I).
+    destruct (c_fallback cfg); [intros [= <-]; exact I|].
+    destruct (mi_has_unmock_arm (info m)); [discriminate|intros [= <-]; exact I].
+  - destruct (mi_has_default (info m)); [discriminate|]. destruct (mi_partial_by_default (info m)).
+    + destruct (mi_has_unmock_arm (info m)); [discriminate|intros [= <-]; exact I].
+    + destruct (c_fallback cfg); [intros [= <-]; exact I|].
+      destruct (mi_has_unmock_arm (info m)); [discriminate|intros [= <-]; exact I].
+Qed.
+
+Lemma advance_no_leaf calls : forall out, no_leaf (advance calls out).
+Proof.
+  induction calls as [|[m a] calls IH]; intros out; cbn [Conc.advance]; [exact I|].
+  destruct (start_call m a) as [act|pd] eqn:Hs; [apply IH|].
+  apply start_call_no_leaf in Hs. unfold no_leaf. cbn [t_pend]. destruct pd; try exact I. exact Hs.
+Qed.
+
+Lemma after_cnt_no_leaf m a i p c pd : after_cnt m a i p c = NPend pd -> match pd with PLockLeaf _ _ _ _ _ _ _ => False | _ => True end.
+Proof.
+  unfold Conc.after_cnt, Conc.finish_next. destruct (find_responder_idx _ _) as [j|]; [|intros [= <-]; exact I].
+  destruct (nth_opt (p_resps p) j) as [[k r]|]; [|intros [= <-]; exact I].
+  destruct r as [[|] v| |f|msg| |]; try discriminate; try (intros [= <-]; exact I).
+  - destruct (mi_has_unmock_arm (info m)); [discriminate|intros [= <-]; exact I].
+  - destruct (mi_has_default (info m)); [discriminate|intros [= <-]; exact I].
+Qed.
+
+Lemma after_ord_no_leaf m a mk k pd : after_ord m a mk k = NPend pd -> match pd with PLockLeaf _ _ _ _ _ _ _ => False | _ => True end.
+Proof.
+  unfold Conc.after_ord. destruct (find_range k (m_pats mk) 0) as [[i p]|]; [|intros [= <-]; exact I].
+  destruct (match_inputs A accepts p a) as [[|]|]; intros [= <-]; exact I.
+Qed.
+
+Lemma nth_opt_updl_cases {X} (l : list X) : forall i y i' x,
+  nth_opt (updl l i y) i' = Some x -> (i' = i /\ x = y) \/ (i' <> i /\ nth_opt l i' = Some x).
+Proof.
+  induction l as [|h t IH]; intros [|i] y [|i'] x H; cbn [updl nth_opt] in H; try discriminate.
+  - injection H as <-. left. split; reflexivity.
+  - right. split; [discriminate|exact H].
+  - right. split; [discriminate|exact H].
+  - destruct (IH i y i' x H) as [[-> ->]|[Hne Hn]]; [left; split; reflexivity|right; split; [congruence|exact Hn]].
+Qed.
+
+Lemma holds_le k ths : forall tid th, nth_opt ths tid = Some th -> holds k th <= holders k ths.
+Proof.
+  unfold holders. induction ths as [|h t IH]; intros [|tid] th H; cbn [nth_opt map nsum] in *; try discriminate.
+  - injection H as ->. lia.
+  - specialize (IH _ _ H). lia.
+Qed.
+
+Lemma holds_two k ths : forall t1 t2 th1 th2, t1 <> t2 -> nth_opt ths t1 = Some th1 -> nth_opt ths t2 = Some th2 ->
+  holds k th1 + holds k th2 <= holders k ths.
+Proof.
+  unfold holders. induction ths as [|h t IH]; intros [|t1] [|t2] th1 th2 Hne H1 H2; cbn [nth_opt map nsum] in *; try discriminate;
+    try congruence.
+  - injection H1 as ->. pose proof (holds_le k t _ _ H2) as L. unfold holders in L. lia.
+  - injection H2 as ->. pose proof (holds_le k t _ _ H1) as L. unfold holders in L. lia.
+  - assert (t1 <> t2) as Hne' by congruence. specialize (IH _ _ _ _ Hne' H1 H2). lia.
+Qed.
+
+Lemma leaf_ok_ext g g' th : g_leaf g' = g_leaf g -> leaf_ok g th -> leaf_ok g' th.
+Proof. unfold leaf_ok. intros ->. exact (fun H => H). Qed.
+
+(* steps that touch neither a slot nor the delivery log *)
+Lemma owner_frame g g' ths tid th th' :
+  owner_inv (g, ths) -> nth_opt ths tid = Some th -> no_leaf th -> no_leaf th' ->
+  g_deliv g' = g_deliv g -> g_leaf g' = g_leaf g -> taken (g_state g') = taken (g_state g) ->
+  owner_inv (g', updl ths tid th').
+Proof.
+  intros (Hc & Hok & Hcons) Hn Hnl Hnl' Hd Hl Ht. split; [|split].
+  - intros m i j. rewrite Hd, Ht, <- (Hc m i j).
+    pose proof (nsum_updl (holds (m, i, j)) ths tid th th' Hn) as Hs.
+    rewrite (no_leaf_holds _ _ Hnl), (no_leaf_holds _ _ Hnl') in Hs. unfold holders. lia.
+  - intros tid' x Hx. apply nth_opt_updl_cases in Hx as [[-> ->]|[Hne Hx]]; [now apply no_leaf_ok|].
+    apply (leaf_ok_ext g); [exact Hl|exact (Hok _ _ Hx)].
+  - intros m i j l. unfold leaves_consistent in Hcons. rewrite Hl, Ht. apply Hcons.
+Qed.
+
+Lemma b2n_take tk m i j m' i' j' :
+  b2n (take tk m i j m' i' j') = if key_eqb (m, i, j) (m', i', j') then 1 else b2n (tk m' i' j').
+Proof. unfold take. cbn [key_eqb]. destruct (N.eqb m m' && Nat.eqb i i' && Nat.eqb j j')%bool; reflexivity. Qed.
+
+Lemma leaf_taken_cons ls x y : leaf_taken (y :: ls) x = (leaf_eqb x y || leaf_taken ls x)%bool.
+Proof. reflexivity. Qed.
+
+Lemma owner_inv_step g ths tid th :
+  owner_inv (g, ths) -> nth_opt ths tid = Some th ->
+  owner_inv (fst (fst (tstep g th)), updl ths tid (snd (fst (tstep g th)))).
+Proof.
+  intros Hinv Hn. pose proof Hinv as (Hc & Hok & Hcons).
+  unfold Conc.tstep. destruct (t_pend th) as [pd|] eqn:Hp.
+  2:{ cbn [fst snd]. apply (owner_frame g g ths tid th th); auto; unfold no_leaf; now rewrite Hp. }
+  assert (Hth : forall k, holds k th = match pd with PLockLeaf m _ i _ j _ _ => if key_eqb (m, i, j) k then 1 else 0 | _ => 0 end).
+  { intros k. unfold holds. now rewrite Hp. }
+  destruct pd as [m a mk|m a i p counted|m a i p j v|m a i p j v lf|e]; cbn [Conc.exec fst snd].
+  - (* ordered index *)
+    apply (owner_frame g _ ths tid th); auto; try reflexivity; [unfold no_leaf; now rewrite Hp|].
+    destruct (after_ord m a mk (next_ord (g_state g))) as [act|pd'] eqn:Ha; [apply advance_no_leaf|].
+    apply after_ord_no_leaf in Ha. unfold no_leaf. cbn [t_pend]. destruct pd'; try exact I. exact Ha.
+  - (* pattern counter *)
+    apply (owner_frame g _ ths tid th); auto; try reflexivity; [unfold no_leaf; now rewrite Hp|].
+    destruct (after_cnt m a i p (cnt (g_state g) m i)) as [act|pd'] eqn:Ha; [apply advance_no_leaf|].
+    apply after_cnt_no_leaf in Ha. unfold no_leaf. cbn [t_pend]. destruct pd'; try exact I. exact Ha.
+  - (* first slot *)
+    destruct (taken (g_state g) m i j) eqn:Ht.
+    { cbn [fst snd]. apply (owner_frame g g ths tid th); auto; [unfold no_leaf; now rewrite Hp|exact I]. }
+    assert (Hfree : forall l', leaf_taken (g_leaf g) (m, i, j, l') = false).
+    { intros l'. destruct (leaf_taken (g_leaf g) (m, i, j, l')) eqn:E; [|reflexivity]. apply Hcons in E. congruence. }
+    destruct (mi_more_leaves (info m)) as [|n] eqn:Hm; cbn [fst snd].
+    + (* the whole value: delivered *)
+      split; [|split].
+      * intros m' i' j'. cbn [g_deliv g_state taken set_taken]. rewrite kcount_snoc, b2n_take.
+        pose proof (nsum_updl (holds (m', i', j')) ths tid th (advance (t_calls th) (t_out th ++ [ActReturn (RVTag v)])) Hn) as Hs.
+        rewrite (Hth (m', i', j')), (no_leaf_holds _ _ (advance_no_leaf _ _)) in Hs.
+        specialize (Hc m' i' j'). unfold holders in *.
+        destruct (key_eqb (m, i, j) (m', i', j')) eqn:E.
+        -- apply key_eqb_true in E. injection E as <- <- <-. rewrite Ht in Hc. cbn [b2n] in Hc. lia.
+        -- lia.
+      * intros tid' x Hx. apply nth_opt_updl_cases in Hx as [[-> ->]|[Hne Hx]]; [apply no_leaf_ok, advance_no_leaf|].
+        apply (leaf_ok_ext g); [reflexivity|exact (Hok _ _ Hx)].
+      * intros m' i' j' l' Hl. cbn [g_leaf g_state taken set_taken] in *. unfold take.
+        rewrite (Hcons _ _ _ _ Hl). now destruct (N.eqb m m' && Nat.eqb i i' && Nat.eqb j j')%bool.
+    + (* a composite value: the request owns it from now on *)
+      split; [|split].
+      * intros m' i' j'. cbn [g_deliv g_state taken set_taken]. rewrite b2n_take.
+        match goal with |- context [updl ths tid ?t] => pose proof (nsum_updl (holds (m', i', j')) ths tid th t Hn) as Hs end.
+        rewrite (Hth (m', i', j')) in Hs. unfold holds in Hs at 3. cbn [t_pend] in Hs.
+        specialize (Hc m' i' j'). unfold holders in *.
+        destruct (key_eqb (m, i, j) (m', i', j')) eqn:E.
+        -- apply key_eqb_true in E. injection E as <- <- <-. rewrite Ht in Hc. cbn [b2n] in Hc. lia.
+        -- lia.
+      * intros tid' x Hx. apply nth_opt_updl_cases in Hx as [[-> ->]|[Hne Hx]].
+        -- unfold leaf_ok. cbn [t_pend g_leaf]. rewrite Hm. split; [lia|]. intros l' _. apply Hfree.
+        -- apply (leaf_ok_ext g); [reflexivity|exact (Hok _ _ Hx)].
+      * intros m' i' j' l' Hl. cbn [g_leaf g_state taken set_taken] in *. unfold take.
+        rewrite (Hcons _ _ _ _ Hl). now destruct (N.eqb m m' && Nat.eqb i i' && Nat.eqb j j')%bool.
+  - (* a further slot: never found empty *)
+    pose proof (Hok _ _ Hn) as Hl. unfold leaf_ok in Hl. rewrite Hp in Hl. destruct Hl as [Hrange Hfree].
+    rewrite (Hfree lf (le_n lf)).
+    assert (Hheld : taken (g_state g) m i j = true).
+    { pose proof (holds_le (m, i, j) ths tid th Hn) as L. rewrite (Hth (m, i, j)), key_eqb_refl in L.
+      specialize (Hc m i j). destruct (taken (g_state g) m i j); [reflexivity|]. cbn [b2n] in Hc. lia. }
+    assert (Hothers : forall tid' x, tid' <> tid -> nth_opt ths tid' = Some x ->
+              leaf_ok {| g_state := g_state g; g_order := g_order g; g_log := g_log g; g_deliv := g_deliv g;
+                         g_leaf := (m, i, j, lf) :: g_leaf g |} x).
+    { intros tid' x Hne Hx. pose proof (Hok _ _ Hx) as Hox. unfold leaf_ok in *.
+      destruct (t_pend x) as [[| | |m2 a2 i2 p2 j2 v2 l2|]|] eqn:Hpx; try exact I.
+      destruct Hox as [Hr2 Hf2]. split; [exact Hr2|]. intros l' Hl'. cbn [g_leaf]. rewrite leaf_taken_cons, (Hf2 l' Hl'), orb_false_r.
+      destruct (leaf_eqb (m2, i2, j2, l') (m, i, j, lf)) eqn:E; [|reflexivity]. exfalso.
+      apply leaf_eqb_true in E. injection E as -> -> -> ->.
+      pose proof (holds_two (m, i, j) ths tid tid' th x ltac:(congruence) Hn Hx) as L2.
+      rewrite (Hth (m, i, j)), key_eqb_refl in L2. unfold holds in L2. rewrite Hpx, key_eqb_refl in L2.
+      specialize (Hc m i j). rewrite Hheld in Hc. cbn [b2n] in Hc. lia. }
+    assert (Hcons' : forall dl, leaves_consistent {| g_state := g_state g; g_order := g_order g; g_log := g_log g; g_deliv := dl;
+                                                     g_leaf := (m, i, j, lf) :: g_leaf g |}).
+    { intros dl m' i' j' l' Hl. cbn [g_leaf g_state] in *. rewrite leaf_taken_cons in Hl. apply orb_true_iff in Hl as [E|Hl].
+      - apply leaf_eqb_true in E. injection E as -> -> -> ->. exact Hheld.
+      - exact (Hcons _ _ _ _ Hl). }
+    destruct (Nat.ltb lf (mi_more_leaves (info m))) eqn:Hlt; cbn [fst snd].
+    + (* on to the next slot *)
+      apply Nat.ltb_lt in Hlt. split; [|split].
+      * intros m' i' j'. cbn [g_deliv g_state].
+        match goal with |- context [updl ths tid ?t] => pose proof (nsum_updl (holds (m', i', j')) ths tid th t Hn) as Hs end.
+        rewrite (Hth (m', i', j')) in Hs. unfold holds in Hs at 3. cbn [t_pend] in Hs.
+        specialize (Hc m' i' j'). unfold holders in *. lia.
+      * intros tid' x Hx. apply nth_opt_updl_cases in Hx as [[-> ->]|[Hne Hx]]; [|exact (Hothers tid' x Hne Hx)].
+        unfold leaf_ok. cbn [t_pend g_leaf]. split; [lia|]. intros l' Hl'.
+        rewrite leaf_taken_cons, (Hfree l' ltac:(lia)), leaf_eqb_other by lia. reflexivity.
+      * apply Hcons'.
+    + (* the last slot: delivered *)
+      split; [|split].
+      * intros m' i' j'. cbn [g_deliv g_state]. rewrite kcount_snoc.
+        pose proof (nsum_updl (holds (m', i', j')) ths tid th (advance (t_calls th) (t_out th ++ [ActReturn (RVTag v)])) Hn) as Hs.
+        rewrite (Hth (m', i', j')), (no_leaf_holds _ _ (advance_no_leaf _ _)) in Hs.
+        specialize (Hc m' i' j'). unfold holders in *. destruct (key_eqb (m, i, j) (m', i', j')); lia.
+      * intros tid' x Hx. apply nth_opt_updl_cases in Hx as [[-> ->]|[Hne Hx]]; [apply no_leaf_ok, advance_no_leaf|].
+        apply (leaf_ok_ext {| g_state := g_state g; g_order := g_order g; g_log := g_log g; g_deliv := g_deliv g;
+                              g_leaf := (m, i, j, lf) :: g_leaf g |}); [reflexivity|exact (Hothers tid' x Hne Hx)].
+      * apply Hcons'.
+  - (* error list *)
+    apply (owner_frame g _ ths tid th); auto; try reflexivity; [unfold no_leaf; now rewrite Hp|apply advance_no_leaf].
+Qed.
+
+Theorem single_use_one_owner sched callss :
+  owner_inv (run_sched sched (init_glob, map (fun cs => advance cs []) callss)).
+Proof.
+  apply sched_induction.
+  - intros g ths tid th H Hn. now apply owner_inv_step.
+  - split; [|split].
+    + intros m i j. cbn [init_glob g_deliv g_state init_state taken b2n]. unfold kcount. cbn [map nsum].
+      unfold holders. induction callss as [|cs callss IH]; cbn [map nsum]; [reflexivity|].
+      rewrite (no_leaf_holds _ _ (advance_no_leaf cs [])). exact IH.
+    + intros tid th Hn. apply no_leaf_ok. revert tid Hn. induction callss as [|cs callss IH]; intros [|tid] Hn; cbn [map nth_opt] in Hn;
+        try discriminate; [injection Hn as <-; apply advance_no_leaf|exact (IH _ Hn)].
+    + intros m i j l Hl. discriminate Hl.
+Qed.
+
+(* at most once ... *)
+Corollary single_use_once sched callss :
+  let g := fst (run_sched sched (init_glob, map (fun cs => advance cs []) callss)) in
+  NoDup (g_deliv g) /\ forall m i j, In (m, i, j) (g_deliv g) -> taken (g_state g) m i j = true.
+Proof.
+  cbn zeta. pose proof (single_use_one_owner sched callss) as H.
+  destruct (run_sched sched _) as [g ths]. cbn [fst]. destruct H as (Hc & _ & _). split.
+  - apply kcount_nodup. intros [[m i] j]. specialize (Hc m i j). destruct (taken (g_state g) m i j); cbn [b2n] in Hc; lia.
+  - intros m i j Hin. apply kcount_in in Hin. specialize (Hc m i j). destruct (taken (g_state g) m i j); [reflexivity|]. cbn [b2n] in Hc. lia.
+Qed.
+
+Lemma done_holds_nothing ths k : all_done A ths = true -> holders k ths = 0.
+Proof.
+  unfold holders, all_done. induction ths as [|th ths IH]; cbn; [reflexivity|].
+  intros H. apply andb_true_iff in H as [Hd Hr]. rewrite (IH Hr). unfold holds.
+  destruct (t_pend th); [discriminate|reflexivity].
+Qed.
+
+(* ... and never lost: when all requests have ended, every emptied slot's value was handed out *)
+Corollary single_use_not_lost sched callss :
+  let st := run_sched sched (init_glob, map (fun cs => advance cs []) callss) in
+  all_done A (snd st) = true ->
+  forall m i j, taken (g_state (fst st)) m i j = true -> In (m, i, j) (g_deliv (fst st)).
+Proof.
+  cbn zeta. pose proof (single_use_one_owner sched callss) as H.
+  destruct (run_sched sched _) as [g ths]. cbn [fst snd]. destruct H as (Hc & _ & _).
+  intros Hd m i j Ht. apply kcount_pos. specialize (Hc m i j). rewrite Ht, (done_holds_nothing ths _ Hd) in Hc. cbn [b2n] in Hc. lia.
+Qed.
+
+(* a request that has emptied the first slot of a composite value finds all the further ones full *)
+Corollary further_slots_never_refused sched callss tid th m a i p j v l :
+  let st := run_sched sched (init_glob, map (fun cs => advance cs []) callss) in
+  nth_opt (snd st) tid = Some th -> t_pend th = Some (PLockLeaf m a i p j v l) ->
+  leaf_taken (g_leaf (fst st)) (m, i, j, l) = false.
+Proof.
+  cbn zeta. pose proof (single_use_one_owner sched callss) as H.
+  destruct (run_sched sched _) as [g ths]. cbn [fst snd]. destruct H as (_ & Hok & _).
+  intros Hn Hp. specialize (Hok _ _ Hn). unfold leaf_ok in Hok. rewrite Hp in Hok. destruct Hok as [_ Hf]. apply Hf. lia.
+Qed.
+
+
+(* the invariant spelled out (for Props/C12.v) *)
+Corollary single_use_one_owner_explicit sched callss :
+  let st := run_sched sched (init_glob, map (fun cs => advance cs []) callss) in
+  (forall m i j, kcount (m, i, j) (g_deliv (fst st)) + holders (m, i, j) (snd st) =
+                 if taken (g_state (fst st)) m i j then 1 else 0) /\
+  (forall tid th m a i p j v l, nth_opt (snd st) tid = Some th -> t_pend th = Some (PLockLeaf m a i p j v l) ->
+     (1 <= l <= mi_more_leaves (info m))%nat /\
+     forall l', (l <= l')%nat -> leaf_taken (g_leaf (fst st)) (m, i, j, l') = false) /\
+  (forall m i j l, leaf_taken (g_leaf (fst st)) (m, i, j, l) = true -> taken (g_state (fst st)) m i j = true).
+Proof.
+  cbn zeta. pose proof (single_use_one_owner sched callss) as H.
+  destruct (run_sched sched _) as [g ths]. cbn [fst snd]. destruct H as (Hc & Hok & Hcons). split; [|split].
+  - intros m i j. rewrite (Hc m i j). now destruct (taken (g_state g) m i j).
+  - intros tid th m a i p j v l Hn Hp. specialize (Hok _ _ Hn). unfold leaf_ok in Hok. now rewrite Hp in Hok.
+  - exact Hcons.
 Qed.
 
 End Conc.
